@@ -115,6 +115,8 @@ class Gen:
                 # the model sees the panicking call as a failed call (nothing reaches the data plane), then the abort
                 if t not in fail:
                     fail.append(dict(t))
+                # the panic happens before anything reaches the data plane: no residue for that call
+                fail[:] = [f for f in fail if not (f["op"] == "remove" and f["kind"] == t["kind"] and f["id"] == t["id"])]
 
     def ieval(self, pool, absent_p=0.04, bad_p=0.04):
         x = self.r.random()
